@@ -73,8 +73,8 @@ def modelFinal (st addinfo : Status) (nodes single : Bool) (nodata : Nat) : Act 
 theorem final_agrees_model (status addinfo : Status) (nodes single : Bool) (nodata : Nat)
     (ha : addinfo = .ok ∨ addinfo = .nodata) :
     final status addinfo nodes false single nodata = modelFinal status addinfo nodes single nodata := by
-  unfold final modelFinal
-  rcases ha with ha | ha <;> subst ha <;> simp
+  -- by cases rather than by rewriting, so that a reordering of the operands of a condition in the C source is accepted
+  rcases ha with ha | ha <;> subst ha <;> cases status <;> cases nodes <;> cases single <;> simp [final, modelFinal]
 
 /-- the part of `gaiOnCb` before the completion chain: status of the sub-request, conversion of its answer -/
 def gaiCbPre (c : Client) (st0 : Status) (timeouts : Nat) (rec : Option Reply) : Client × Status × Status × List ClientAct :=
